@@ -194,6 +194,21 @@ class Step(object):
         self.redo = None              # fn(target_obj, src_obj) repeating this step's library call
 
 
+def decode_value(v):
+    """Configuration values that JSON cannot carry as such: {'np': [...]} is a NumPy array of those
+    items, {'np0': x} a 0-d NumPy array, {'bytes': 'wrap'} a bytes object, {'tuple': [...]} a tuple."""
+    if isinstance(v, dict):
+        if 'np' in v:
+            return np.array(v['np'])
+        if 'np0' in v:
+            return np.array(v['np0'])
+        if 'bytes' in v:
+            return v['bytes'].encode()
+        if 'tuple' in v:
+            return tuple(v['tuple'])
+    return v
+
+
 def decode_index(ix):
     if isinstance(ix, list):
         if ix and ix[0] == 'sl':
@@ -1938,7 +1953,7 @@ class World(object):
         st.extra['field'] = op['field']
         yield
         o = self.obj(d)
-        v = op['value']
+        v = decode_value(op['value'])
         via = op.get('via', 'config')
         if not valid:
             self.bump('fault_F1_injected')
@@ -1986,9 +2001,9 @@ class World(object):
         yield
         self.bump('fault_F1_injected')
         if op.get('cls') == 'Config':
-            st.ret = Config(**{op['field']: op['value']})
+            st.ret = Config(**{op['field']: decode_value(op['value'])})
         else:
-            st.ret = Fxp(1.0, True, 8, 2, **{op['field']: op['value']})
+            st.ret = Fxp(1.0, True, 8, 2, **{op['field']: decode_value(op['value'])})
         st.transients.append(st.ret)
 
     # ================================================================== ops: environment
